@@ -34,7 +34,7 @@ NONDET_SRC = re.compile(
     r"tempnam|tmpfile|sys_get_temp_dir|spawn|curl_init|fsockopen|stream_socket_client|proc_open|"
     r"shell_exec|system|passthru|gethostname|php_uname|spl_object_id|spl_object_hash|lcg_value|"
     r"file_put_contents|mkdir|unlink|rmdir|touch|fwrite|set_time_limit)\s*\(|new\s+\\?(DateTime|DateTimeImmutable|DateTimeZone)|"
-    r"\b(pcntl_|posix_)|\bgo\s+(function|fn|\$)|->listen\(|->serve\(|Net\\\\Http|Channel")
+    r"\b(pcntl_|posix_)|\bgo\s+(function|fn|\$)|->listen\(|->serve\(|Net\\\\Http|Channel|\$argv|\$argc|\['argv'\]")
 
 # ---------------------------------------------------------------------------- generated feature programs
 # each feature is a self-contained block; {S} is replaced by a per-program suffix so that blocks can
@@ -102,6 +102,8 @@ FEATURES = [
     ("callable_strings", "function cs{S}($x) { return $x . '!'; } echo call_user_func('cs{S}', 'a'), implode(',', array_map('strtoupper', ['a', 'b'])), \"\\n\";"),
     ("isset_unset", "$iu{S} = ['a' => 1]; echo isset($iu{S}['a']) ? 'set' : 'unset', isset($iu{S}['b']) ? 'set' : 'unset', empty($iu{S}['b']) ? 'empty' : 'full', \"\\n\";"),
     ("int_float_ops", "echo intdiv(7, 2), ' ', 7 <=> 7.0, ' ', round(2.5), ' ', 0.1 + 0.2 == 0.3 ? 'eq' : 'ne', ' ', 1e3, ' ', PHP_INT_MAX, \"\\n\";"),
+    ("extends_builtin", "class AI{S} extends \\ArrayIterator { function twice() { return $this->count() * 2; } } $ai{S} = new AI{S}([1, 2, 3]); $at{S} = 0; foreach ($ai{S} as $av{S}) { $at{S} += $av{S}; } echo $at{S}, $ai{S}->twice(), \"\\n\";"),
+    ("var_dump_line", "var_dump(5);"),
     ("namespace_fn", "__NAMESPACE__"),  # placeholder, expanded specially
 ]
 
@@ -603,6 +605,14 @@ def main(ck):
             continue
         ndiff += 1
         what = "output" if a[1] != b[1] else ("outcome" if a[0] != b[0] else "exit-status")
+        LINE = re.compile(r"(\.php|\.zy):\d+(:\d+)?")
+        if what == "output" and a[0] == b[0] and a[2:] == b[2:] and LINE.sub(r"\1:<line>", a[1]) == LINE.sub(r"\1:<line>", b[1]):
+            # the only difference is a source position printed by the program (var_dump's file:line prefix, ...)
+            ck.violation("e2e:positions:printed-line-number", {"case": {"kind": "e2e", "file": os.path.relpath(r["file"], repo) if r["file"].startswith(repo) else None,
+                                                                        "src": meta.get("src"), "features": meta.get("features")},
+                                                               "impl_out": {"interpreted": r["interpreted"], "compiled": r["compiled"]},
+                                                               "clause": "compiled and interpreted output differ only in a printed source line number"})
+            continue
         if meta.get("kind") == "feature":
             key = "e2e:feature=%s:%s" % (meta["features"][0], what)
         elif meta.get("kind") == "combo":
@@ -678,6 +688,11 @@ def main(ck):
                                                          "clause": "`origami compile --build` project for an accepted source must build"})
             continue
         if res["compiled"] != res["interpreted"]:
+            LINE = re.compile(r"(\.php|\.zy):\d+(:\d+)?")
+            if res["compiled"]["exit"] == res["interpreted"]["exit"] and LINE.sub(r"\1:<line>", res["compiled"]["out"]) == LINE.sub(r"\1:<line>", res["interpreted"]["out"]):
+                ck.violation("e2e:positions:printed-line-number", {"case": {"kind": "real", "src": meta["src"], "features": meta["features"]}, "impl_out": res,
+                                                                   "clause": "the built binary and `origami file.php` differ only in a printed source line number"})
+                continue
             what = "output" if res["compiled"]["out"] != res["interpreted"]["out"] else "exit-status"
             ck.violation("real:feature=%s:%s" % (feat, what), {"case": {"kind": "real", "src": meta["src"], "features": meta["features"]}, "impl_out": res,
                                                               "clause": "the built binary and `origami file.php` differ in %s" % what})
